@@ -69,14 +69,16 @@ fn cases_for(open: &Node, coins: &[(CoinID, u128, u64)], difficulties: &[(u32, b
             let max_erg = ref_dosc_to_erg(height, reward).unwrap_or(u128::MAX);
             let base = format!("coin{} age={} d={} {}", ci, age, d, if *tip910 { "tip910" } else { "legacy" });
             // ERG amounts around the bound
-            let mut amounts = vec![0u128, max_erg, max_erg + 1, max_erg.saturating_mul(2).saturating_add(1)];
+            // (far into the chain the bound exceeds what a coin can hold: amounts above 2^120 are ill-formed whatever the bound)
+            let coin_max: u128 = 1 << 120;
+            let mut amounts = vec![0u128, max_erg, max_erg.saturating_add(1), max_erg.saturating_mul(2).saturating_add(1), coin_max.min(max_erg), coin_max];
             if max_erg > 0 {
                 amounts.push(max_erg - 1);
             }
             amounts.sort();
             amounts.dedup();
             for e in amounts {
-                out.push(Case { label: format!("{} erg={}(max {})", base, e, max_erg), tx: mint_tx(*coin, *value, *d, &pb, e, false), valid: e <= max_erg });
+                out.push(Case { label: format!("{} erg={}(max {})", base, e, max_erg), tx: mint_tx(*coin, *value, *d, &pb, e, false), valid: e <= max_erg && e <= coin_max });
             }
             // the bound applies to the *sum* of ERG outputs
             out.push(Case { label: format!("{} erg split over two outputs = max+1", base), tx: mint_tx(*coin, *value, *d, &pb, max_erg, true), valid: false });
